@@ -778,7 +778,39 @@ def rule_success_only_against_own_kind(em, rep, rid):
                 rep.violation(rid, key, 'a %s can unify with something that is not a %s: this success is not confined to the branch '
                               'where the other (dereferenced) term is of the same class, so two syntactically different terms '
                               'unify' % (c.name, c.name), v.loc(call))
-    rep.minimum('success sites in the unify methods of non-variable term classes', n, 2)
+    if n == 0:
+        # double dispatch: C.unify calls other.<hook>(self) and every class answers the hook; a success in C's answer to the
+        # hook that only D.unify calls pairs a D with a C - it must be the same class
+        hooks = {}
+        for d in em.repo.instantiated():
+            u = em.repo.lookup_method(d, 'unify') if d.module.name == 'engine' and d is not cell.cls else None
+            if u is None or u.is_generator:
+                continue
+            for x in own_nodes(u.node):
+                if isinstance(x, ast.Call) and isinstance(x.func, ast.Attribute) and len(x.args) == 1 and is_name(x.args[0], u.params[0]) and \
+                        not is_name(x.func.value, u.params[0]):
+                    hooks.setdefault(x.func.attr, set()).add(d)
+        for c in em.repo.instantiated():
+            if c.module.name != 'engine' or c is cell.cls:
+                continue
+            for hname, callers in hooks.items():
+                m = em.repo.lookup_method(c, hname)
+                if m is None or m.is_generator:
+                    continue
+                for x in own_nodes_ordered(m.node):
+                    if not isinstance(x, ast.Call):
+                        continue
+                    ci = em.cg.constructed_class(m, x)
+                    if (ci is not None and iterator_class_kind(em, ci) == 'once') or any(g in arrays for g in em.cg.resolve_callable(m, x.func)):
+                        n += 1
+                        key = '%s(%s):%s' % (m.qname, c.name, norm(x)[:40])
+                        others = [d for d in callers if d is not c and c not in em.repo.mro(d) and d not in em.repo.mro(c)]
+                        if others:
+                            rep.violation(rid, key, 'a %s answers the hook %s, which %s.unify calls, with a success: a %s unifies with a %s'
+                                          % (c.name, hname, others[0].name, others[0].name, c.name), m.loc(x))
+                        else:
+                            rep.ok(rid, key, 'reached only from %s.unify (double dispatch)' % c.name, m.loc(x))
+    rep.minimum('success sites in the unify methods of non-variable term classes', n, 1)
     # compound terms: the two argument lists are handed to the argument-list unifier whole
     for c in em.repo.instantiated():
         if c.module.name != 'engine' or c is cell.cls:
@@ -885,7 +917,15 @@ def rule_arity_guard(em, rep, rid):
             while isinstance(cmp_, ast.UnaryOp) and isinstance(cmp_.op, ast.Not):
                 cmp_, neg = cmp_.operand, not neg
             if isinstance(cmp_, ast.Compare) and len(cmp_.ops) == 1:
-                l, r = norm(cmp_.left), norm(cmp_.comparators[0])
+                def side(e):
+                    # a local assigned once, from len(<list>), stands for that length
+                    if isinstance(e, ast.Name) and e.id not in f.all_params:
+                        defs = [s_ for s_ in own_nodes(f.node) if isinstance(s_, ast.Assign) and any(is_name(t_, e.id) for t_ in s_.targets)]
+                        stores = [x for x in own_nodes(f.node) if isinstance(x, ast.Name) and x.id == e.id and isinstance(x.ctx, ast.Store)]
+                        if len(defs) == 1 and len(stores) == 1:
+                            return norm(defs[0].value)
+                    return norm(e)
+                l, r = side(cmp_.left), side(cmp_.comparators[0])
                 if {l, r} == {'len(%s)' % a, 'len(%s)' % b}:
                     guards.append((t, cmp_, neg))
         accesses = [n for n in cfg.nodes if any(isinstance(x, ast.Subscript) and is_name(x.value) and x.value.id in (a, b)
